@@ -231,6 +231,15 @@ NEEDS = {
              'two cooperating defect types: vacancy pattern matches under an operation while a solute arrangement does not'),
     'C28d': ('Supercell.setocc range check c > Nchem (same slip as seeded C28, found independently)',
              'species index exactly Nchem on an occupied site, IndexError caught, supercell used afterwards'),
+    'C19d': ('Crystal.reduce: translation-accepted flag reset per species (only the last species can veto a candidate translation)',
+             'multi-species cell whose smallest species is listed last and has an internal rational pseudo-translation not shared by an earlier species'),
+    'C20d': ('module VectorBasis: -4 rotoinversion treated as leaving the axis invariant (line instead of point)',
+             'site whose point group is exactly S4 (-4): low-symmetry tetragonal two-species crystal with a general P-4 orbit'),
+    'C29d': ('Interstitial.makesupercells: host species with chemistry index above the interstitial species are not placed',
+             'multi-species crystal in which the interstitial species is not the last chemistry index'),
+    'C36d': ('GroupOp.__eq__ compares index maps with zip (prefix equality) while __hash__ uses the full map',
+             'operations of two crystals on one lattice with a different number of species (fcc vs rock salt): equal but different hashes'),
+    'C22d': ('KPTmesh / fullkptmesh change by the seeding agent (see notes in meta)', 'see patch'),
 }
 
 
